@@ -6,6 +6,7 @@
 From Coq Require Import List Arith Bool.
 From LokyV Require Import Lib.LedgerLib Lib.PoolLib Gen.Ledger Gen.Pool Model.Pool Proofs.PoolThm.
 From LokyV Require Proofs.LedgerThm Model.Ledger Model.Wake Proofs.WakeThm.
+From LokyV Require Model.FailLoop Proofs.FailLoopThm.
 Import ListNotations.
 
 Theorem C01_manager_never_leaves_a_future_unresolved :
@@ -58,3 +59,21 @@ Example C01_example :
                 MgrOp; MgrOp; MgrOp; MgrOp; MgrOp; MgrOp; MgrOp; MgrOp; Submit]) (pool0 2) in
   mgr p = MDone /\ ok p = 2 /\ submitted p = 2 /\ refused p = 1.
 Proof. vm_compute. auto. Qed.
+
+(* ---- failing the table (Model/FailLoop.v; finding H14, fixed) ----
+   terminate_broken() (the forced-shutdown loop is C06's).
+   A future still waiting in the table can be cancelled by its owner at any moment, also between two iterations, and
+   Future.set_exception() raises InvalidStateError on a cancelled future.  How the loop guards the call is read off the source
+   (broken_path_fail_guard).  For every table and every interleaving of cancellations with the loop: the error never escapes (the
+   manager thread survives), when the loop has ended every item has an outcome (failed by the manager, or cancelled by its owner) and
+   none was lost, and it ends after one step per item plus one.  On the pinned source the call was bare: one cancelled future killed
+   the manager thread, the items after it were never failed, the workers neither killed nor joined (real reproduction
+   findings/H14_real.py). *)
+Theorem C01_failing_the_table_never_kills_the_manager :
+  forall table es, let s := FailLoop.run broken_path_fail_guard es (FailLoop.start table) in
+    FailLoop.lphase s <> FailLoop.Crashed /\
+    (FailLoop.lphase s = FailLoop.Finished ->
+       FailLoop.todo s = [] /\ forallb FailLoop.terminal (FailLoop.handled s) = true /\ length (FailLoop.handled s) = length table) /\
+    (length table < FailLoop.mgr_steps es -> FailLoop.lphase s = FailLoop.Finished).
+Proof. exact FailLoopThm.guarded_loop_never_crashes. Qed.
+Print Assumptions C01_failing_the_table_never_kills_the_manager.
